@@ -103,7 +103,14 @@ impl Property for C13 {
             // empty batch) are recognised by the reference model; such a call must change nothing, whatever the
             // implementation answers (the answer itself is C05's concern). Every other call must conform to the model,
             // otherwise later shapes cannot be recognised reliably and the case is skipped.
-            if !is_noop {
+            if matches!(step.cop, COp::Restart { .. }) {
+                // what a restart preserves is C01's concern: the shapes of later calls are recognised against what the
+                // re-opened log shows
+                match exec.driver.observe() {
+                    Ok(observed) => exec.model = crate::model::Model::from_state(&observed),
+                    Err(_) => return Err(CaseError::Skip("live-state-unobservable".to_string())),
+                }
+            } else if !is_noop {
                 exec.conform_or_skip(&step)?;
             }
             if is_noop {
